@@ -483,7 +483,7 @@ func collectExecSites(pr *Prog, facts map[string]interface{}) *leanFile {
 	lf.blank()
 
 	// imports of the native (non-plugin) library packages
-	var native, forbidden [][]interface{}
+	var native, forbidden, pairs [][]interface{}
 	for _, p := range pr.Pkgs {
 		if p.IsMain || p == plugin {
 			continue
@@ -493,6 +493,7 @@ func collectExecSites(pr *Prog, facts map[string]interface{}) *leanFile {
 			for _, is := range af.Imports {
 				path, _ := strconv.Unquote(is.Path.Value)
 				paths = append(paths, path)
+				pairs = append(pairs, []interface{}{p.Names[i], path})
 				if execPkgs[path] || path == plugin.Path || path == "syscall" || path == "golang.org/x/sys/unix" || path == "plugin" {
 					forbidden = append(forbidden, []interface{}{p.Names[i], path})
 				}
@@ -505,6 +506,10 @@ func collectExecSites(pr *Prog, facts map[string]interface{}) *leanFile {
 	sortRows(forbidden)
 	lf.comment("imports of every non-test file of the library packages other than plugin: (file, space-separated import paths)")
 	lf.tuples("nativeFileImports", "String × String", native)
+	lf.blank()
+	sortRows(pairs)
+	lf.comment("the same, one row per (file, import path): the table Tie/C17 recomputes the forbidden imports from")
+	lf.tuples("nativeImportPairs", "String × String", pairs)
 	lf.blank()
 	lf.comment("those of them that are os/exec, execabs, syscall, x/sys/unix or the plugin package (there must be none)")
 	lf.tuples("nativeForbiddenImports", "String × String", forbidden)
